@@ -48,7 +48,10 @@ Definition only_on (p : npath) (ops : list fsop) : Prop :=
 
 Record step_ok (p : npath) (fs fs' : fsys) : Prop := {
   so_log : exists added, fs_log fs' = fs_log fs ++ added /\ only_on p added;
-  so_others : forall q, q <> p -> is_file fs' q = is_file fs q }.
+  so_others : forall q, q <> p -> lookup_file q (fs_files fs') = lookup_file q (fs_files fs) }.
+
+Lemma so_others_is_file p fs fs' : step_ok p fs fs' -> forall q, q <> p -> is_file fs' q = is_file fs q.
+Proof. intros H q Hq. unfold is_file. rewrite (so_others _ _ _ H q Hq). reflexivity. Qed.
 
 Lemma step_ok_refl p fs : step_ok p fs fs.
 Proof. split; [exists []; rewrite app_nil_r; split; [reflexivity|intros op []]|intros; reflexivity]. Qed.
@@ -66,7 +69,7 @@ Proof.
   unfold fs_remove_file. destruct (existsb _ _); [discriminate|]. destruct (is_file fs p); [|destruct (is_dir fs p); discriminate].
   intros [= <-]. split; [split|].
   - exists [OpUnlink p]. split; [reflexivity|]. intros op [<-|[]]. reflexivity.
-  - intros q Hq. unfold is_file. cbn [fs_files]. rewrite lookup_remove_other; auto.
+  - intros q Hq. cbn [fs_files]. rewrite lookup_remove_other; auto.
   - unfold is_file. cbn [fs_files]. rewrite lookup_remove_same. reflexivity.
 Qed.
 
@@ -88,7 +91,7 @@ Proof.
   destruct (negb _); [discriminate|]. destruct (is_dir fs p); [discriminate|].
   intros [= <-] Hnf. split.
   - exists [OpCreate p (is_file fs p)]. split; [reflexivity|]. intros op [<-|[]]. auto.
-  - intros q Hq. unfold is_file. cbn [fs_files]. rewrite lookup_app_other, lookup_remove_other; auto.
+  - intros q Hq. cbn [fs_files]. rewrite lookup_app_other, lookup_remove_other; auto.
 Qed.
 
 Definition same_tree (a c : fsys) : Prop :=
@@ -107,7 +110,7 @@ Lemma step_ok_same p fs fs0 : same_tree fs0 fs -> step_ok p fs fs0.
 Proof.
   intros H. split.
   - exists []. rewrite app_nil_r. split; [apply H|intros op []].
-  - intros q _. apply same_tree_is_file. assumption.
+  - intros q _. destruct H as (Hf & _ & _). rewrite Hf. reflexivity.
 Qed.
 
 (* an output operation under the fault oracle: it ran on the same tree and succeeded, ran and failed, or
@@ -204,7 +207,7 @@ Proof.
         specialize (O2 op Hin). destruct op; auto.
         -- right. assumption.
         -- destruct O2. split; [right; assumption|assumption].
-      * intros k2 m2 Hin Hex. rewrite F1.
+      * intros k2 m2 Hin Hex. unfold is_file. rewrite F1. fold (is_file fs (normalize k2)).
         -- apply (Hpre k2 m2); [right; assumption|assumption].
         -- intros Heq. apply Hni. rewrite <- Heq. apply in_map_iff. exists (k2, m2). auto.
     + intros [= <- _]. exists a1. auto.
